@@ -17,8 +17,9 @@ RULE = ('schemas: every corpus schema that builds without errors (with its corpu
         'families (with generated valid / faulted documents as probes); transformations, applied on source-text spans of the '
         'top-level declarations: seeded permutation of the global declarations, 2-3 way split into xs:include documents with '
         'the same root attributes, re-spelling of every schemaLocation (./x, sub/../x, absolute path, file URL, '
-        'percent-encoded), reordering of xs:import elements, build() again after clear(), copy.copy, pickle round trip; '
-        'observations: sorted (kind, qualified name) of iter_globals() and (verdict, ordered error reasons, decoded data) of '
+        'percent-encoded), reordering of xs:import elements and of all composition elements (include / import), build() again after clear(), copy.copy, pickle round trip; '
+        'three hand-written compositions (imports + include with forward references; XSD 1.1 per-document defaults; one document '
+        'included into two namespaces as a chameleon); observations: (kind, qualified name, structural signature) of every global component and (verdict, ordered error reasons, decoded data) of '
         'every probe; a case = (schema, transformation); non-trivial = the schema has at least 3 global declarations or a '
         'composition element; the number of distinct global build orders is measured with a PY_START probe')
 ASSUMPTIONS = [
